@@ -20,7 +20,7 @@ type VerifLogTables struct {
 	HashNames           map[uint8]string
 	// internal signature type codes
 	SigRSA, SigDSA, SigPKCS1v15, SigRSAPSS, SigECDSA, SigEd25519 uint8
-	SupportedSignatureAlgorithms                                []uint16
+	SupportedSignatureAlgorithms                                 []uint16
 }
 
 func VerifC28Tables() VerifLogTables {
